@@ -192,6 +192,24 @@ func TestDispatch(t *testing.T) {
 		}
 	}
 	synctest.Test(t, func(t *testing.T) {
+		// a context taken from inside a handler of some other server (what a forwarding service hands to the server it sets
+		// up for the next hop through NewContext): it carries that server's request and server, which are not the ones the
+		// handlers of this server are to see
+		var outerCtx context.Context
+		{
+			och := vh.NewVChan("outer", &vh.Recorder{}, false)
+			outer := jrpc2.NewServer(handler.Map{"grab": func(ctx context.Context, _ *jrpc2.Request) (any, error) {
+				outerCtx = context.WithoutCancel(ctx)
+				return nil, nil
+			}}, nil).Start(och)
+			och.Push([]byte(`{"jsonrpc":"2.0","id":"outer","method":"grab"}`), nil)
+			synctest.Wait()
+			och.PeerClose()
+			outer.Wait()
+			if outerCtx == nil || jrpc2.ServerFromContext(outerCtx) != outer {
+				t.Fatal("harness: no handler context of the outer server")
+			}
+		}
 		for mi := range tab.Muxes {
 			for _, builtin := range []bool{true, false} {
 				r := &rig{}
@@ -204,6 +222,9 @@ func TestDispatch(t *testing.T) {
 					startTime = time.Date(2020, 2, 29, 12, 30, 0, 0, time.UTC)
 				}
 				opts := &jrpc2.ServerOptions{DisableBuiltin: !builtin, Concurrency: 2, StartTime: startTime}
+				if mi%2 == 1 {
+					opts.NewContext = func() context.Context { return outerCtx }
+				}
 				r.srv = jrpc2.NewServer(spy{r, mux}, opts)
 				// the options are read when the server is made: the caller may reuse the value for another server afterwards
 				// (every field changed here; this server is what it was told to be)
